@@ -54,6 +54,40 @@ def run(ck, prog, ctx):
     # structural sanity of the arena accessors the rule relies on
     for n in ("get", "get_mut", "get_unchecked", "get_unchecked_mut"):
         ck.anchor("ATOMIC", "Arena::" + n + " (private helper the rule is phrased over)", prog.body(ARENA + "::" + n), private=True)
+    # the validation rejects what is ABSENT: an error result that stands behind a lookup of a caller-supplied id stands on the lookup's None
+    # edge.  (`if self.hpo_terms.get(id).is_some() { return Err(DoesNotExist) }` rejects every valid call and lets the invalid ones through
+    # to the unchecked accesses.)
+    from engines import positive_edges as _pe15, error_blocks as _eb15
+    from prov import Prov as _Prov15
+    pv15 = _Prov15(prog, inline=False)
+    for m in sorted(ms, key=lambda b: b.id):
+        errs_ = _eb15(m)
+        for lbi, lt in m.calls():
+            if not is_lookup(lt.callee) or lt.dest is None:
+                continue
+            pos_ = set(_pe15(m, pv15, lbi))
+            sw_ = {e_[0] for e_ in pos_}
+            neg_ = {(sb_, tg_) for sb_ in sw_ for tg_ in m.succ[sb_] if (sb_, tg_) not in pos_}
+            if not pos_:
+                continue
+            def fails_(edges_):
+                for (sb_, tg_) in edges_:
+                    seen_, work_ = set(), [tg_]
+                    straight = True
+                    while work_:
+                        y_ = work_.pop()
+                        if y_ in seen_:
+                            continue
+                        seen_.add(y_)
+                        if y_ in errs_:
+                            return True
+                        if len(m.succ[y_]) == 1 and len(seen_) < 6:
+                            work_.extend(m.succ[y_])
+                return False
+            on_found, on_absent = fails_(pos_), fails_(neg_)
+            if on_found or on_absent:
+                ck.ob("ATOMIC", "validation-polarity/%s/%d" % (m.short, lbi), on_absent and not on_found, "%s answers with an error %s" % (m.short, "when the looked-up id is absent" if on_absent and not on_found else
+                      "when the looked-up id IS PRESENT (and goes on when it is absent): valid calls are rejected, invalid ones reach the unchecked accesses"), where=m.where(lt.line))
     for m in sorted(ms, key=lambda b: b.id):
         P, sites, results = at.check_method(m)
         pnames = {p: m.local_name(p) for p in P}
